@@ -145,9 +145,11 @@ func c12Add(bs, lats []int64, class string) Case {
 	w.Z(1)
 	w.Zs(bs)
 	w.Zs(lats)
-	h := vegeta.Histogram{}
+	// two independent instances: rendering one must not prepare the other
+	h, h2 := vegeta.Histogram{}, vegeta.Histogram{}
 	for _, b := range bs {
 		h.Buckets = append(h.Buckets, time.Duration(b))
+		h2.Buckets = append(h2.Buckets, time.Duration(b))
 	}
 	panicked := false
 	func() {
@@ -158,6 +160,7 @@ func c12Add(bs, lats []int64, class string) Case {
 		}()
 		for _, l := range lats {
 			h.Add(&vegeta.Result{Latency: time.Duration(l)})
+			h2.Add(&vegeta.Result{Latency: time.Duration(l)})
 		}
 	}()
 	w.Bool(panicked)
@@ -190,7 +193,7 @@ func c12Add(bs, lats []int64, class string) Case {
 	func() {
 		defer func() { recover() }()
 		var buf bytes.Buffer
-		if err := vegeta.NewHistogramReporter(&h).Report(&buf); err != nil {
+		if err := vegeta.NewHistogramReporter(&h2).Report(&buf); err != nil {
 			return
 		}
 		for _, line := range strings.Split(buf.String(), "\n") {
